@@ -113,7 +113,7 @@ CallClauses(ln, o) ==
      <<"NormPreserved", (ln.exc = "" /\ ln.dense /\ ~o.imag) => ln.nq = 0>>,
      <<"ImagNormalised", (ln.exc = "" /\ ln.dense /\ o.imag) => ln.nq = 0>>,
      \* the recorded gate sequence is the one the implementation-shaped model predicts
-     <<"NOTE:ModelDrift", (run /\ L > 2) => gs = GatesOfLayers(ModelAfter(ln, o).layers, L, cyc)>> >>
+     <<"NOTE:ModelDrift", (run /\ L > 2 /\ StepOf(ln, o) > 0) => gs = GatesOfLayers(ModelAfter(ln, o).layers, L, cyc)>> >>
 
 CallNext(ln, o) ==
   IF ln.exc # "" \/ Backwards(ln, o) THEN o
@@ -122,7 +122,8 @@ CallNext(ln, o) ==
                  !.pending = ln.q,
                  !.seg = IF ln.q THEN SegOf(ln, o) ELSE <<>>,
                  !.known = IF ln.q THEN KnownOf(ln, o) ELSE <<>>,
-                 !.mq = ModelAfter(ln, o).queue]
+                 \* (the model is only run on sane observations: a step of zero or off the grid would not terminate)
+                 !.mq = IF ln.dtgrid /\ ln.tgrid /\ StepOf(ln, o) > 0 THEN ModelAfter(ln, o).queue ELSE <<>>]
 
 (* ------------------------------- others --------------------------------- *)
 OpsOf(s) == [k \in 1..Len(s) |-> [sites |-> s[k].sites, m |-> [e \in 1..Len(s[k].m) |-> <<s[k].m[e][1], s[k].m[e][2]>>]]]
